@@ -4,15 +4,88 @@ import json, os, sys
 ROOT = os.path.dirname(os.path.dirname(os.path.abspath(__file__)))
 
 # id -> (technique, level text, design ref, level note)
+T = 'Trusted: the harness oracles named in the technique (RefCodec = independent reading of ETSI TS 102 606 / RFC 5163, bitwise CRC reference self-tested against 0x0376E6E7), proptest 1.11, rustc; harness built with overflow checks on so arithmetic wrap in the crate surfaces as a panic.'
 CHECKS = {
- "C12": ("exhaustive table-index sweep + proptest differential vs bitwise CRC-32/MPEG-2 reference + recording CRC calculators end to end",
-         "Exhaustive over every table index at every byte position of short messages (closed space), plus generated-input differential testing against an independent bit-by-bit CRC and end-to-end checks of the trailer and of the arguments the crate passes to its calculator. Exploration: no counter-example in N generated cases; the sweep part is complete.",
-         "DESIGN.md §5 C12",
-         "Trusted: the 12-line bitwise reference (self-tested against check value 0x0376E6E7), RefCodec's reading of ETSI TS 102 606, proptest, rustc."),
- "C14": ("exhaustive enumeration of all 65536 headers and all 4x4x4096 triples",
-         "The whole input space is enumerated in both directions, so for this property the run is complete (exhaustive: true), not a sample.",
-         "DESIGN.md §5 C14",
-         "Trusted: the harness's bit layout (S,E,LT,length) from ETSI TS 102 606; Debug names identify the crate-private packet-kind enum."),
+ 'C01': ('proptest streams through a real encapsulator/decapsulator pair, round-trip oracle + RefCodec parse + completeness rule on the written label',
+         "Exploration by generated-input search: streams of PDUs with substitution, limit-length PDUs, exact and > 4097-byte buffers, storages >= PDU. Evidence is 'N cases, M distinct non-trivial, these classes, no counter-example'; absence is not proven.",
+         'DESIGN.md §5 C01',
+         T),
+ 'C02': ('proptest buffer-size schedules driven exactly as the statement says; completion bound, then round trip through a real decapsulator',
+         "Exploration by generated-input search: PDUs up to 65533 bytes x schedules of tiny, threshold and > 4097-byte buffers; sender totality for buffers >= 13, conservative completion bound, exact round trip. Evidence is 'N cases, M distinct non-trivial, these classes, no counter-example'; absence is not proven.",
+         'DESIGN.md §5 C02',
+         T),
+ 'C03': ('proptest fault injection on fragment trains (drop/dup/swap/bit flips/bursts <= 32 bits/truncation/field overwrite/splicing) judged by a reference receiver (RefRx) + reference CRC; exhaustive single-bit sweep over 200 small trains',
+         "Exploration by generated-input search: every delivery at an end fragment is re-derived from the bytes actually received (length and CRC-32 recomputed independently); the single-bit sweep over small trains is complete. Evidence is 'N cases, M distinct non-trivial, these classes, no counter-example'; absence is not proven.",
+         'DESIGN.md §5 C03, §7.3',
+         T),
+ 'C04': ('stateful proptest: sender/receiver in lock step with content-tagged PDUs; receiver-alone histories judged against the RefRx effective-label register',
+         "Exploration by generated-input search: operation histories with failing calls, settings changes, resets and fragment traffic; every delivered PDU is matched to the sender's record. Evidence is 'N cases, M distinct non-trivial, these classes, no counter-example'; absence is not proven.",
+         'DESIGN.md §5 C04',
+         T),
+ 'C05': ('exhaustive enumeration of all byte strings <= 3 bytes x 12 receiver states and of 65536 headers x truncations x adversarial tails; proptest random/mutated buffers in random reachable states; long trains into > 65535-byte storages; (thorough) libFuzzer target rx_stream',
+         "Exploration by generated-input search: the <= 3-byte space is closed in the thorough tier (quick closes lengths 0..=2 in all states and length 3 in two); the header sweep and the generated part sample the rest. Evidence is 'N cases, M distinct non-trivial, these classes, no counter-example'; absence is not proven.",
+         'DESIGN.md §5 C05',
+         T),
+ 'C06': ('proptest sender sessions; every call executed twice into complementary prefills (written-set observation); each emitted packet parsed by RefCodec and compared field by field; (thorough) libFuzzer target tx_ops',
+         "Exploration by generated-input search: buffers 0..=70000 on first and continuation calls, extension chains, hand-made contexts. Evidence is 'N cases, M distinct non-trivial, these classes, no counter-example'; absence is not proven.",
+         'DESIGN.md §5 C06',
+         T),
+ 'C07': ('exhaustive enumeration of all order-preserving merges of small train sets with one stray at every position + proptest random interleavings; reference slot-ownership model',
+         "Exploration by generated-input search: the enumerated family (2 PDUs x 2..4 fragments, 3 PDUs x 2..3 fragments, 12..16 stray kinds, every position; 2 / 2,3,4 slots) is complete; larger configurations are sampled. Evidence is 'N cases, M distinct non-trivial, these classes, no counter-example'; absence is not proven.",
+         'DESIGN.md §5 C07',
+         T),
+ 'C08': ('stateful proptest over provision/decap/reset/new_pdu histories on a ledger-wrapped memory with injected GseDecapMemory failures; conservation invariant after every call + final drain',
+         "Exploration by generated-input search: buffer conservation is checked at every step of every history and at the end by draining the real memory through its public trait. Evidence is 'N cases, M distinct non-trivial, these classes, no counter-example'; absence is not proven.",
+         'DESIGN.md §5 C08',
+         T),
+ 'C09': ('proptest single calls after random prior states; buffer/state snapshot comparison and follow-up-packet differential twin; mandatory-error rules; (thorough) libFuzzer target tx_ops',
+         "Exploration by generated-input search: PDU and buffer lengths up to 70000, every label/protocol type/context/extension-list class. Evidence is 'N cases, M distinct non-trivial, these classes, no counter-example'; absence is not proven.",
+         'DESIGN.md §5 C09',
+         T),
+ 'C10': ('proptest frames of real encapsulator packets; differential twin receivers (walker vs packet-by-packet)',
+         "Exploration by generated-input search: frames with every rejection class, extension/signalling packets, padding and trailing garbage. Evidence is 'N cases, M distinct non-trivial, these classes, no counter-example'; absence is not proven.",
+         'DESIGN.md §5 C10',
+         T),
+ 'C11': ('proptest fragment trains incl. hand-made contexts at any position; partition/progress oracle on RefCodec-parsed packets',
+         "Exploration by generated-input search: continuation buffers weighted to 0..=12 and to the end-packet threshold. Evidence is 'N cases, M distinct non-trivial, these classes, no counter-example'; absence is not proven.",
+         'DESIGN.md §5 C11',
+         T),
+ 'C12': ('exhaustive table-index sweep + proptest differential vs bitwise CRC-32/MPEG-2 reference + recording CRC calculators end to end',
+         "Exploration by generated-input search: the sweep over every table index at every byte position of short messages is complete; long messages and end-to-end trailers are sampled. Evidence is 'N cases, M distinct non-trivial, these classes, no counter-example'; absence is not proven.",
+         'DESIGN.md §5 C12',
+         T),
+ 'C13': ('exhaustive enumeration of Extension::new over 65536 ids x 11 lengths; proptest extension chains end to end (RefCodec + real receiver with table-driven managers); undecodable combinations must be refused',
+         "Exploration by generated-input search: the constructor space is closed; chains, fragmentation offsets and manager knowledge are sampled. Evidence is 'N cases, M distinct non-trivial, these classes, no counter-example'; absence is not proven.",
+         'DESIGN.md §5 C13',
+         T),
+ 'C14': ('exhaustive enumeration of all 65536 headers and all 4x4x4096 triples',
+         'The whole input space is enumerated in both directions, so for this property the run is complete (exhaustive: true), not a sample.',
+         'DESIGN.md §5 C14',
+         T),
+ 'C15': ('exhaustive enumeration of all histories to depth 6 (quick) / 7 (thorough) over a 14-operation alphabet + proptest long histories (bursts > 255); audit of emitted label types',
+         "Exploration by generated-input search: bounded-depth histories are complete; counter behaviour at 255 is reached by generated bursts. Evidence is 'N cases, M distinct non-trivial, these classes, no counter-example'; absence is not proven.",
+         'DESIGN.md §5 C15, §7.5',
+         T),
+ 'C16': ('stateful proptest: arbitrary poisoning prefix (valid, mutated, raw traffic; drained/over-provisioned memory; open contexts on every slot) then the recovery protocol with two probes',
+         "Exploration by generated-input search: probes must be delivered byte-exact after any generated prefix. Evidence is 'N cases, M distinct non-trivial, these classes, no counter-example'; absence is not proven.",
+         'DESIGN.md §5 C16',
+         T),
+ 'C17': ('exhaustive enumeration of all operation sequences to depth 5 (quick) / 6-7 (thorough) over a 16-operation alphabet with aliasing ids + proptest long sequences; reference model (bag + slots) compared after every operation + final drain',
+         "Exploration by generated-input search: bounded-depth sequences are complete for memories of 1..4 slots. Evidence is 'N cases, M distinct non-trivial, these classes, no counter-example'; absence is not proven.",
+         'DESIGN.md §5 C17, §7.6',
+         T),
+ 'C18': ('proptest differential: encap_preview vs encap and encap_frag_preview vs encap_frag on the same state and arguments',
+         "Exploration by generated-input search: PDU/buffer lengths up to 70000, all protocol-type ranges, contexts at/after the PDU end. Evidence is 'N cases, M distinct non-trivial, these classes, no counter-example'; absence is not proven.",
+         'DESIGN.md §5 C18',
+         T),
+ 'C19': ('proptest over every packet of real sender sessions: peek alone / followed by bytes vs RefCodec reading vs decap of the same bytes',
+         "Exploration by generated-input search: all label kinds incl. substituted re-use, extension chains, fragment ids. Evidence is 'N cases, M distinct non-trivial, these classes, no counter-example'; absence is not proven.",
+         'DESIGN.md §5 C19',
+         T),
+ 'C20': ("proptest round trip parse(generate(d)) == d, differential against RefCodec layout, against the encapsulator's bytes and against the decapsulator (constant CRC calculator)",
+         "Exploration by generated-input search: four packet kinds x label kinds x payloads 0..=4000 x any CRC. Evidence is 'N cases, M distinct non-trivial, these classes, no counter-example'; absence is not proven.",
+         'DESIGN.md §5 C20',
+         T),
 }
 NOT_YET = {}
 
